@@ -60,6 +60,12 @@ def op_txt(op):
         return "LOAD %s %s" % (op["slot"], enc(op["data"]))
     if n == "ENV":
         return "ENV " + (",".join("%s=%s" % kv for kv in op["env"].items()) or "-")
+    if n == "LOADU":
+        return "LOADU %s %s" % (op["slot"], enc(op["data"]))
+    if n == "MERGE":
+        return "MERGE"
+    if n in ("RUNTIME", "PROJECT"):  # set_runtime_path / set_project_location + load_*: the level is replaced
+        return "LOAD %s %s" % (n.lower(), enc(op["data"] or {}))
     if n == "TASK":
         return "TASK %d %s %s" % (1 if op["none"] else 0, "/".join(enc(c) for c in op["cfgs"]) or "-",
                                  ",".join("%s=%s" % kv for kv in op["env"].items()) or "-")
@@ -168,6 +174,8 @@ class Impl:
         self.sources = []  # (label, held object, deep snapshot at hand-over time)
         self.tmpdir = tmpdir
         self.colls = []  # (root collection, task path, expected configuration)
+        self.classes = {}  # clone targets by index
+        self.nfiles = 0
 
     def hand(self, label, data):
         d = copy.deepcopy(data)
@@ -234,8 +242,25 @@ class Impl:
             with EnvPatch(env_prefix(c), op["env"]):
                 c.load_shell_env()
             return ABSENT
+        if n == "LOADU":
+            d = self.hand(op["slot"], op["data"])
+            {"defaults": c.load_defaults, "overrides": c.load_overrides, "collection": c.load_collection}[op["slot"]](
+                d, merge=False)
+            return ABSENT
+        if n == "MERGE":
+            c.merge()
+            return ABSENT
+        if n in ("RUNTIME", "PROJECT"):
+            return self._reload_file(c, n, op["data"])
         if n == "CLONE":
-            k = c.clone() if op.get("into") is None else c.clone(into=make_sub(op["into"]))
+            if op.get("into") is None:
+                k = c.clone()
+            else:
+                # the SAME class object for the same "cls" index within a history (clone targets are reused)
+                key = op.get("cls", "anon%d" % len(self.classes))
+                if key not in self.classes:
+                    self.classes[key] = make_sub(op["into"])
+                k = c.clone(into=self.classes[key])
             self.objs.append(k)
             return ABSENT
         p = self.nav(c, op.get("path", []))
@@ -291,6 +316,29 @@ class Impl:
         if n == "ITEMS":
             return "v" + canon({a: deplain(b) for a, b in p.items()})
         raise ValueError("unknown op " + n)
+
+    def _reload_file(self, c, kind, data):
+        """point the runtime / project level at a new location and load it from a real file (removed afterwards);
+        data None: a runtime path that does not exist"""
+        import json
+        from invoke.config import Config
+        self.nfiles += 1
+        midfix = Config.file_prefix or Config.prefix
+        base = os.path.join(self.tmpdir, "reload%d" % self.nfiles)
+        os.makedirs(base, exist_ok=True)
+        f = os.path.join(base, "rt.json" if kind == "RUNTIME" else midfix + ".json")
+        if data is not None:
+            with open(f, "w") as fd:
+                json.dump(data, fd)
+        if kind == "RUNTIME":
+            c.set_runtime_path(f)
+            c.load_runtime()
+        else:
+            c.set_project_location(base)
+            c.load_project()
+        if os.path.exists(f):
+            os.remove(f)
+        return ABSENT
 
     def _newf(self, op):
         """a config whose four file levels are loaded from real JSON files (removed again afterwards)"""
@@ -481,6 +529,14 @@ class Ref:
             return ABSENT
         if n == "ENV":
             self.load_env(op["env"])
+            return ABSENT
+        if n == "LOADU":
+            self.reload(op["slot"], op["data"])
+            return ABSENT
+        if n == "MERGE":
+            return ABSENT
+        if n in ("RUNTIME", "PROJECT"):
+            self.reload(n.lower(), op["data"] or {})
             return ABSENT
         path = op.get("path", [])
         keys = [k for k, _ in path]
